@@ -338,7 +338,9 @@ func findIDInQueue[M interface{ ID() EventID }](q *queue[M], id EventID, autoID 
 
 		pos := -1
 		if delta := id - firstID; id >= firstID {
-			if delta >= uint64(q.count) { //nolint:gosec // int always positive
+			if delta >= uint64(q.count)-1 { //nolint:gosec // int always positive
+				// Either the ID was not issued yet or it is the newest one,
+				// so there is nothing to replay.
 				return -1
 			}
 			pos = int(delta) //nolint:gosec // delta < q.count, which is an int
@@ -365,7 +367,8 @@ func findIDInQueue[M interface{ ID() EventID }](q *queue[M], id EventID, autoID 
 		i++
 		if i == len(q.buf) {
 			i = 0
-		} else if i == q.tail {
+		}
+		if i == q.tail {
 			i = -1
 		}
 	}
